@@ -2,6 +2,7 @@
    Model/Doe.v with binary64 level values (compared bit for bit) and build_gsd on level counts. *)
 From Coq Require Import List ZArith Bool Arith Floats.
 From Artap Require Export Base.Ord Base.FloatInst Model.Doe.
+From Artap Require Import Proofs.DoeFullfact.
 Import ListNotations.
 Local Open Scope nat_scope.
 
@@ -11,11 +12,13 @@ Inductive c13_case :=
 | CPB (bounds : list (float * float))                             (* PlackettBurmanGenerator *)
 | CBB (bounds : list (float * float))                             (* BoxBehnkenGenerator *)
 | CGSDGen (values : list (list float)) (reduction : nat)          (* GSDGenerator, n = 1 *)
-| CGSD (levels : list nat) (reduction n : nat).                   (* doe.build_gsd *)
+| CGSD (levels : list nat) (reduction n : nat)                    (* doe.build_gsd *)
+| CFullAt (levels : list N) (idx : list N).                       (* doe.fullfact(levels): run count and the rows idx *)
 
 Inductive c13_obs :=
 | ORows (rows : list (list float))
 | ODesigns (designs : list (list (list nat)))
+| OSample (nrows : N) (rows : list (list Z))
 | OErr (code : nat).
 
 Definition err_code (e : err) : nat :=
@@ -41,6 +44,19 @@ Definition full_levels (center : bool) (b : float * float) : list float :=
 Definition bb_levels (b : float * float) : list float :=
   let (lb, ub) := b in fsort [lb; ub; ((lb + ub) / 2)%float].
 
+(* Big designs (level counts / run counts around 2^15, 2^16) are not written out: the run count and the rows at the
+   sampled positions idx are compared, the model's row q being digits levels q, which is row q of fullfact levels
+   by Props/C13.v C13_fullfact_row_closed_form (and the index row behind row q of build_full_fact by
+   C13_build_full_fact_row_closed_form).  Positions beyond the design give the empty row on both sides. *)
+Definition full_at (levels : list N) (idx : list N) : c13_obs :=
+  match levels with
+  | [] => OErr 3
+  | _ =>
+    let lv := map N.to_nat levels in
+    let n := fold_right N.mul 1%N levels in
+    OSample n (map (fun q => if (q <? n)%N then map Z.of_nat (digits lv (N.to_nat q)) else []) idx)
+  end.
+
 Definition c13_run (c : c13_case) : c13_obs :=
   match c with
   | CFull center bounds => obs_rows (build_full_fact (map (full_levels center) bounds))
@@ -53,6 +69,7 @@ Definition c13_run (c : c13_case) : c13_obs :=
       | Ok ds => ODesigns ds
       | Err e => OErr (err_code e)
       end
+  | CFullAt levels idx => full_at levels idx
   end.
 
 Fixpoint list_eqb {A} (eqb : A -> A -> bool) (x y : list A) : bool :=
@@ -66,6 +83,7 @@ Definition c13_obs_eqb (a b : c13_obs) : bool :=
   match a, b with
   | ORows x, ORows y => list_eqb (list_eqb fbits_eqb) x y
   | ODesigns x, ODesigns y => list_eqb (list_eqb (list_eqb Nat.eqb)) x y
+  | OSample n x, OSample m y => N.eqb n m && list_eqb (list_eqb Z.eqb) x y
   | OErr x, OErr y => Nat.eqb x y
   | _, _ => false
   end.
